@@ -33,6 +33,7 @@ ASSUMPTIONS = [
     'empty (rank padding) but not all of them, and the joined text is never '
     'parseable as a number',
 ]
+ANCHORS = ['Table.delimited_self', 'Table._extract_data_from_tsv', 'Table.from_tsv', '_convert', 'parse_biom_table']
 REQUIRED = ['export_to_tsv', 'export_str', 'export_direct_io',
             'export_cli', 'import_from_tsv_lines', 'import_from_tsv_handle',
             'import_load_table', 'import_load_table_gz',
